@@ -404,7 +404,7 @@ class Unit:
         # loop contracts are keyed by loop ordinal: if the number of loops in the body differs from the number the
         # contracts were written against (contracts/loop_counts.json), an ordinal may now name a different loop and
         # its invariants would be checked against the wrong loop -- undecided, never a failed obligation
-        if c and (c.loops or getattr(c, 'loopbodies', None) or getattr(c, 'loopends', None)):
+        if c and (c.loops or getattr(c, 'loopbodies', None) or getattr(c, 'loopends', None) or getattr(c, 'loppres', None)):
             lc = getattr(self, '_loop_counts', None)
             if lc is None:
                 try: lc = json.load(open(os.path.join(self.verif, 'contracts', 'loop_counts.json')))
@@ -434,6 +434,12 @@ class Unit:
                     raise LostAnchor('%s: contract names loop %d but the body has %d loops' % (disp, n, len(loops)))
                 kw, k, q = loops[n - 1]
                 edits.append((q + 1, 0, [('\n', ('gen', None, 0))] + [(t + '\n', ('vspec', blk.file, no)) for t, no in blk.lines]))
+            for n, blk in getattr(c, 'loppres', {}).items():
+                if n < 1 or n > len(loops):
+                    raise LostAnchor('%s: contract names loop %d but the body has %d loops' % (disp, n, len(loops)))
+                kw, k, q = loops[n - 1]
+                ls = src.rfind('\n', 0, k) + 1
+                edits.append((ls, 0, [(t + '\n', ('vspec', blk.file, no)) for t, no in blk.lines]))
             for n, blk in getattr(c, 'loopends', {}).items():
                 if n < 1 or n > len(loops):
                     raise LostAnchor('%s: contract names loop %d but the body has %d loops' % (disp, n, len(loops)))
